@@ -147,11 +147,18 @@ theorem VJ.holder_live {v : View} {root : Ptr} {D : List Ptr} (h : VJ v root D) 
 
 /-! ### L1: a live node loses entries; the removed children named in `D'` become detached subtrees -/
 
-theorem VJ.shrink {v : View} {root : Ptr} {D D' : List Ptr} (h : VJ v root D) {x : Ptr} {pp : Option Ptr}
-    {ks ks' : List Ptr} (hx : v x = some (pp, ks)) (hl : VLive v root D x) (hs : ∀ c ∈ ks', c ∈ ks) (hn : ks'.Nodup)
+theorem VJ.shrink' {v : View} {root : Ptr} {D D' : List Ptr} (h : VJ v root D) {x : Ptr} {pp : Option Ptr}
+    {ks ks' : List Ptr} (hx : v x = some (pp, ks)) (hl : D' = [] ∨ VLive v root D x) (hs : ∀ c ∈ ks', c ∈ ks)
+    (hn : ks.Nodup → ks'.Nodup)
     (hD' : D'.Nodup) (hsub : ∀ d ∈ D', d ∈ ks) (hdis : ∀ d ∈ D', d ∉ ks') :
     VJ (setKids v x ks') root (D ++ D') := by
-  have hgx := h.good x pp ks hx hl
+  have hlx : ∀ d, d ∈ D' → VLive v root D x := by
+    intro d hd
+    rcases hl with hl | hl
+    · rw [hl] at hd; cases hd
+    · exact hl
+  have hgx : ∀ d, d ∈ D' → ks.Nodup ∧ ∀ c ∈ ks, ∃ cks, v c = some (some x, cks) :=
+    fun d hd => h.good x pp ks hx (hlx d hd)
   have liveOld : ∀ y, VLive (setKids v x ks') root (D ++ D') y → VLive v root D y := by
     intro y hy
     rw [VLive_setKids] at hy
@@ -159,7 +166,7 @@ theorem VJ.shrink {v : View} {root : Ptr} {D D' : List Ptr} (h : VJ v root D) {x
     · exact Or.inl hy
     · rcases List.mem_append.mp hy with hy | hy
       · exact Or.inr (Or.inl hy)
-      · obtain ⟨cks, hc⟩ := hgx.2 y (hsub y hy)
+      · obtain ⟨cks, hc⟩ := (hgx y hy).2 y (hsub y hy)
         exact Or.inr (Or.inr ⟨x, cks, hc⟩)
     · exact Or.inr (Or.inr hy)
   have liveNew : ∀ y, VLive v root D y → VLive (setKids v x ks') root (D ++ D') y := by
@@ -177,7 +184,7 @@ theorem VJ.shrink {v : View} {root : Ptr} {D D' : List Ptr} (h : VJ v root D) {x
     rcases setKids_inv hy with ⟨hyx, hb, b0, h0⟩ | ⟨_, h0⟩
     · refine ⟨b0, h0, ?_⟩
       rw [hyx, hx] at h0
-      cases h0; rw [hb]; exact ⟨hs, fun _ => hn⟩
+      cases h0; rw [hb]; exact ⟨hs, hn⟩
     · exact ⟨b, h0, fun c hc => hc, fun hh => hh⟩
   constructor
   · obtain ⟨rks, hr⟩ := h.rootOK
@@ -203,7 +210,7 @@ theorem VJ.shrink {v : View} {root : Ptr} {D D' : List Ptr} (h : VJ v root D) {x
     refine ⟨h.dNodup, hD', ?_⟩
     intro a ha b hb hab
     subst hab
-    exact h.dDet a ha x pp ks hx hl (hsub a hb)
+    exact h.dDet a ha x pp ks hx (hlx a hb) (hsub a hb)
   · intro d hd
     rcases List.mem_append.mp hd with hd | hd
     · obtain ⟨pk, hpk⟩ := h.dEx d hd; exact exNew d pk hpk
@@ -214,7 +221,7 @@ theorem VJ.shrink {v : View} {root : Ptr} {D D' : List Ptr} (h : VJ v root D) {x
     rcases List.mem_append.mp hd with hd | hd
     · exact h.dDet d hd y a b0 h0 hlo (hsb _ hdb)
     · -- d is a child of x; a live holder is x itself, and x's new entries do not contain it
-      obtain ⟨c1, hc1⟩ := hgx.2 d (hsub d hd)
+      obtain ⟨c1, hc1⟩ := (hgx d hd).2 d (hsub d hd)
       obtain ⟨c2, hc2⟩ := (h.good y a b0 h0 hlo).2 d (hsb _ hdb)
       rw [hc1] at hc2
       have hyx : x = y := by cases hc2; rfl
@@ -225,7 +232,7 @@ theorem VJ.shrink {v : View} {root : Ptr} {D D' : List Ptr} (h : VJ v root D) {x
   · intro hr
     rcases List.mem_append.mp hr with hr | hr
     · exact h.dNotRoot hr
-    · obtain ⟨c1, hc1⟩ := hgx.2 root (hsub root hr)
+    · obtain ⟨c1, hc1⟩ := (hgx root hr).2 root (hsub root hr)
       obtain ⟨rks, hrk⟩ := h.rootOK
       rw [hrk] at hc1; cases hc1
   · intro y a b hy hly hyb
@@ -235,6 +242,19 @@ theorem VJ.shrink {v : View} {root : Ptr} {D D' : List Ptr} (h : VJ v root D) {x
     obtain ⟨b0, h0, _, _⟩ := kidsOld y (some p) b hy
     obtain ⟨pk, hpk⟩ := h.parEx y p b0 h0
     exact exNew p pk hpk
+
+theorem VJ.shrink {v : View} {root : Ptr} {D D' : List Ptr} (h : VJ v root D) {x : Ptr} {pp : Option Ptr}
+    {ks ks' : List Ptr} (hx : v x = some (pp, ks)) (hl : VLive v root D x) (hs : ∀ c ∈ ks', c ∈ ks) (hn : ks'.Nodup)
+    (hD' : D'.Nodup) (hsub : ∀ d ∈ D', d ∈ ks) (hdis : ∀ d ∈ D', d ∉ ks') :
+    VJ (setKids v x ks') root (D ++ D') :=
+  h.shrink' hx (Or.inr hl) hs (fun _ => hn) hD' hsub hdis
+
+/-- ANY node (live or not) loses entries and nothing becomes detached (Delete's removal of an object entry) -/
+theorem VJ.shrink0 {v : View} {root : Ptr} {D : List Ptr} (h : VJ v root D) {x : Ptr} {pp : Option Ptr}
+    {ks ks' : List Ptr} (hx : v x = some (pp, ks)) (hs : ∀ c ∈ ks', c ∈ ks) (hn : ks.Nodup → ks'.Nodup) :
+    VJ (setKids v x ks') root D := by
+  have := h.shrink' (D' := []) hx (Or.inl rfl) hs hn List.nodup_nil (fun d hd => by cases hd) (fun d hd => by cases hd)
+  simpa using this
 
 /-! ### L2/L4: an entry for `c` is appended to `x` and `c.parent = x` -/
 
